@@ -51,6 +51,7 @@ class Contract(object):
         # execute the body only from the first top-level statement matching this text (AST pattern) to the end: what comes before is
         # not executed, every declared local starts as an arbitrary value of its type (an over-approximation of any entry state)
         self.from_stmt = kw.pop("from_stmt", None)
+        self.from_after = kw.pop("from_after", False)  # start after the statement matching from_stmt (it is itself not executed)
         self.to_stmt = kw.pop("to_stmt", None)        # ... up to (excluding) the first later top-level statement matching this text
         self.window = kw.pop("window", None)          # name of the window: several windows of one function are separate units `f@name`   # verified against this contract, but call sites resolve to another declaration
         self.empties = kw.pop("empties", {})             # 'set'/'list'/'dict' -> type of untyped empty displays                    # clause -> known-finding condition
